@@ -235,6 +235,15 @@ func runC01(env *core.Env) {
 		l.Link(dep, okE)
 		l.Link(q, gone)
 		l.Link(q, b)
+		// r1 / r2 wait for a finished task that is still there and for the blocked one; the two links are recorded in
+		// either order (a verdict taken from whichever dependency is looked at last is wrong for one iteration order)
+		r1, r2 := core.IDFor(9808), core.IDFor(9809)
+		l.Create(SynItem{ID: r1, Title: "r1 waits for ok-done and b"})
+		l.Create(SynItem{ID: r2, Title: "r2 waits for b and ok-done"})
+		l.Link(r1, okT)
+		l.Link(r1, b)
+		l.Link(r2, b)
+		l.Link(r2, okT)
 		l.State(gone, "done")
 		l.Tombstone(gone)
 		l.State(okT, "done")
